@@ -207,7 +207,7 @@ def step (_ : Unit) (op : List String) (impl : String) : LineOut Unit :=
             else if (get "env=") != some "*" && selfTags.any (fun p => simple p.1 && !p.2.contains 0 &&
                 !entriesB.contains (b "SERF_TAG_" ++ upper p.1 ++ EQ :: p.2)) then
               some ("env-tag", "a tag with a plain ASCII name is not visible as SERF_TAG_<UPPER-CASED NAME>=<value>")
-            else if !entriesB.contains (b "SERF_EVENT=" ++ event.kind.str) || !entriesB.contains (b "SERF_SELF_NAME=" ++ selfName) then
+            else if (get "env=") != some "*" && (!entriesB.contains (b "SERF_EVENT=" ++ event.kind.str) || !entriesB.contains (b "SERF_SELF_NAME=" ++ selfName)) then
               some ("env-fixed", "SERF_EVENT / SERF_SELF_NAME missing or wrong")
             else match get "resp=" with
               | some "none" => none
